@@ -43,7 +43,7 @@ def parseCase (f : List String) : Option UDecl :=
   match f with
   | app :: about :: pos :: groups :: _ =>
     match pos.splitOn "," with
-    | [pf, pn] => do
+    | pf :: pn :: _ => do     -- an optional third component asks the harness to request every entry once more
       let gs ← (groups.splitOn ";").mapM parseGroup
       pure ⟨← unhex app, ← unhex about, gs, pf = "1", ← unhex pn⟩
     | _ => none
